@@ -308,7 +308,7 @@ def run(prop: str, tier: str) -> core.Report:
         tags.update(t)
         for sig, cls, case, detail in f:
             fl.append(core.Failure(prop="C10", sig=sig, cls=cls, case=case, detail=detail, group=cls))
-    rlen = 5 if tier == "quick" else 7
+    rlen = 5 if tier == "quick" else 6
     rstats, rfails, rstates = registry_histories(rlen)
     for h, bad in rfails:
         hs = " ; ".join(" ".join(map(str, o)) for o in h)
